@@ -534,7 +534,7 @@ def direct_clauses(pid, bench, ta, a, tb, b):
                         yield ("an accepted list cannot be tested for membership", {"constraints": [str(q) for q in cons], "version": tk, "error": m})
 
 
-def _more_unrankable(ctx, pid, bench, extra=4):
+def _more_unrankable(ctx, pid, bench, extra=8):
     """a few more pools of the scheme, built only to meet versions that cannot be ranked (which pairs a pool meets is a
     matter of chance; one pool is too few for a scheme-specific slip to show on every run)"""
     seen = {(ta, tb) for ta, _a, tb, _b in bench.pool.unrankable}
@@ -546,6 +546,31 @@ def _more_unrankable(ctx, pid, bench, extra=4):
                 seen.add((ta, tb))
                 bench.pool.unrankable.append((ta, a, tb, b))
         bench.pool.cycles.extend(p.cycles)
+    # systematic twins of the pool's own members: a leading zero on each of the last two digit runs, one letter in the
+    # other case (the pairs on which a key that strips zeros or folds case disagrees with an equality that does not)
+    import re
+    for cl in bench.pool.classes[:14]:
+        t, v = cl[0]
+        cands = []
+        runs = [m.start() for m in re.finditer(r"[0-9]+", t)]
+        for i in runs[-2:]:
+            cands.append(t[:i] + "0" + t[i:])
+        idx = [i for i, ch in enumerate(t) if ch.isalpha() and ch.isascii()]
+        if idx:
+            cands.append(t[:idx[-1]] + t[idx[-1]].swapcase() + t[idx[-1] + 1:])
+        for t2 in cands:
+            if (t2, t) in seen or (t, t2) in seen:
+                continue
+            try:
+                v2 = S.make(bench.name, t2)
+            except Exception:  # noqa: BLE001
+                continue
+            q = pools.Pool(bench.name, need_hash=False)
+            q.insert(t, v)
+            q.insert(t2, v2)
+            for ta, a, tb, b in q.unrankable:
+                seen.add((ta, tb))
+                bench.pool.unrankable.append((ta, a, tb, b))
 
 
 TRIPLE_PATTERNS = ((">=", "!=", "<"), ("=", "=", "="), ("<=", ">", "!="), ("!=", "!=", "!="), (">=", "<", ">="), ("<", ">=", "<"))
